@@ -154,7 +154,9 @@ def _build_streams(case):
                     ops,
                     "ops" if (ops == 0 and c.get("failures_as_ops")) else tspec["unit"],
                     t,  # time_period: elapsed since this client started the task
-                    None,
+                    # progress of *this client* as the executor reports it: k of n requests for two clients in three, none for the
+                    # others (a task that runs until another one completes); a client's last sample says 1.0 while others carry on
+                    (k + 1) / len(all_ops) if client_id % 3 != 2 else None,
                 )
                 merged.append(s)
             client_id += 1
